@@ -876,4 +876,7 @@ def respell_language(g, form):
             b, lang = k.split("::", 1)
             val = r.pop(k)
             r[b + "::" + lang.replace(" ", sp, 1)] = val
+    dl = form.get("settings", {}).get("default_language")
+    if dl and " " in dl and g.p("_", 0.5):
+        form["settings"]["default_language"] = dl.replace(" ", sp, 1)      # the setting names the language in the odd spelling too
     return True
